@@ -1,5 +1,5 @@
 import Driver.Util
-import AgModel.Model.MachInt
+import AgModel.Model.MachIntExt
 /-! Driver for the machine-integer layer: executes the ops of `harness/src/bin/mi.rs` on `AgModel.MachInt`. -/
 open AgModel.MachInt Driver
 
@@ -23,6 +23,11 @@ def showL (r : Option (List UInt64)) : String :=
   match r with
   | some [] => "-"
   | some l => " ".intercalate (l.map (fun x => toString x.toNat))
+  | none => "panic"
+
+def showD (r : Option Dur) : String :=
+  match r with
+  | some d => s!"{d.secs.toNat}.{d.nanos}"
   | none => "panic"
 
 def all4 (a b c d : Option Bool) : String :=
@@ -59,6 +64,37 @@ def step (st : St) (ws : List String) : St × List String :=
   -- `handle_implicitly_finalized`: `for slot in parent.future_slots()` runs until it yields the source slot (d elements)
   | ["finimpl", s, d] =>
     (st, [if (futureSlots (u64! s - u64! d) (nat! d)).isSome then "ok" else "panic"])
+  -- `set_timeouts(s)`: `c<slot>@<ms>` / `t<slot>@<ms>`, ms after the call on an ideal clock (rounded up, as tokio does)
+  | ["timeouts", s] =>
+    match setTimeouts (u64! s) with
+    | none => (st, ["panic"])
+    | some sched =>
+      let f := fireTimes sched 0
+      (st, [" ".intercalate (f.map (fun (t, e) =>
+        let ms := (t + 999999) / 1000000
+        match e with
+        | .crashed x => s!"c{x}@{ms}"
+        | .timeout x => s!"t{x}@{ms}"))])
+  | ["deltas"] =>
+    match DELTA_TIMEOUT with
+    | none => (st, ["panic"])
+    | some dt => (st, [s!"{dt.toNanos} {DELTA_BLOCK.toNanos} {DELTA_FIRST_SLICE.toNanos}"])
+  | ["dadd", s1, n1, s2, n2] =>
+    (st, [showD (Dur.add ⟨u64! s1, nat! n1⟩ ⟨u64! s2, nat! n2⟩)])
+  | ["dsub", s1, n1, s2, n2] =>
+    (st, [showD (some (Dur.saturatingSub ⟨u64! s1, nat! n1⟩ ⟨u64! s2, nat! n2⟩))])
+  | ["dmul", s1, n1, k] => (st, [showD (Dur.mul ⟨u64! s1, nat! n1⟩ (u64! k))])
+  | ["dms", ms] => (st, [showD (some (Dur.fromMillis (u64! ms)))])
+  | ["sadd", a, b] => (st, [showO (stakeAdd (u64! a) (u64! b))])
+  | ["ssub", a, b] => (st, [showO (stakeSub (u64! a) (u64! b))])
+  | ["smul", a, b] => (st, [showO (stakeMul (u64! a) (u64! b))])
+  | ["sdivceil", a, b] => (st, [showO (stakeDivCeil (u64! a) (u64! b))])
+  | ["fcmp", n1, d1, n2, d2] =>
+    match fracCmp (u64! n1) (u64! d1) (u64! n2) (u64! d2), fracEq (u64! n1) (u64! d1) (u64! n2) (u64! d2) with
+    | some o, some e => (st, [s!"{match o with | .lt => "lt" | .eq => "eq" | .gt => "gt"} {e}"])
+    | _, _ => (st, ["panic"])
+  | ["windows", k] => (st, [showL (windows (nat! k))])
+  | ["winjump", j, m] => (st, [showL (windowsJump (u64! j) (nat! m))])
   | _ => (st, ["bad-op"])
 
 def main : IO Unit := runDriver ({} : St) step
